@@ -202,8 +202,8 @@ def check_fifo_unbind(res, prop, cm, roles, m, seg):
             continue
         cleared = False
         for e in seg.effects:
-            if e.kind == 'BACKPTR' and same_ent(e.ent, u.ent) and e.val in (('global', 'nullopt'),) and seg.effects.index(e) > seg.effects.index(u):
-                cleared = True
+            if e.kind == 'BACKPTR' and same_ent(e.ent, u.ent) and e.val in (('global', 'nullopt'),):
+                cleared = True      # before (iterator saved, optional reset, then erased) or after the index erase
             if e.kind == 'BACKPTR' and same_ent(e.ent, u.ent) and isinstance(e.val, tuple) and e.val[0] == 'ctor' and not e.val[2]:
                 cleared = True
         res.ob('R-FIFO-UNBIND', ok=cleared)
